@@ -105,7 +105,7 @@ def main():
                         break
                 sig = [ln.strip() for ln in out.splitlines() if ln.strip().startswith('finding ')][:2]
                 status = 'CAUGHT' if caught else ('HARNESS-ERROR' if code == 2 else 'MISSED')
-                print(f'{status:14s} {pid} {name} {sig}')
+                print(f"{status:14s} {pid} {name} {sig}", flush=True)
                 if not caught:
                     missed.append((pid, name))
                     if code == 2:
